@@ -1,4 +1,4 @@
-\* design run: every string of length <= 3 over the 27-symbol design alphabet, lexed, printed, lexed again
+\* design run: every string of length <= 3 over the 23-symbol design alphabet, lexed, printed, lexed again
 SPECIFICATION Spec
 CONSTANTS
   Pieces <- DesignPieces
